@@ -255,6 +255,25 @@ func (e *c21Env) tuple(parts []c21Part, idx int32) {
 			// scoredb style: the type byte is framed like every other part
 			sk := ToKey(HashBuilder, append([]interface{}{prefix[0]}, vals...)...)
 			record("hash-typebyte", hex.EncodeToString(prefix), []byte(sk.(hashKeyBuilder)))
+			// the same keys from ONE caller prefix slice that has spare capacity, each
+			// followed by a sibling key from the same slice; all results stay alive
+			wantA := append(append([]byte{}, prefix...), key...)
+			for mode := 1; mode <= 4; mode++ {
+				sb := c21NewSpare(prefix, mode)
+				a1 := AppendKeys(sb.slice(), vals...)
+				a2 := AppendKeys(sb.slice(), byte(0x5a), "sibling")
+				h1 := NewHashKey(sb.slice(), vals...)
+				h2 := NewHashKey(sb.slice(), byte(0x5a), "sibling")
+				p1 := ToKey(PrefixedHashBuilder, append([]interface{}{sb.slice()}, vals...)...)
+				k1 := p1.Build()
+				k2 := p1.Append(byte(0x5a)).Build()
+				_, _, _ = a2, h2, k2
+				if !bytes.Equal(a1, wantA) || !bytes.Equal([]byte(h1.(hashKeyBuilder)), []byte(nk.(hashKeyBuilder))) || !bytes.Equal(k1, pk.Build()) || !sb.intact() {
+					fail("keys-from-one-spare-capacity-prefix-interfere", "prefix %x with %s: AppendKeys=%s want %s; NewHashKey pre-image=%s want %s; prefixed key=%x want %x; caller buffer intact=%v",
+						prefix, c21SpareNames[mode], c21Hex(a1), c21Hex(wantA), c21Hex([]byte(h1.(hashKeyBuilder))), c21Hex([]byte(nk.(hashKeyBuilder))), k1, pk.Build(), sb.intact())
+					break
+				}
+			}
 		}
 	}); p != "" {
 		fail("key-builder-panics", "%s", p)
@@ -341,7 +360,108 @@ func c21Val(v Value) string {
 	return "=" + string(v.Bytes())
 }
 
-func c21Builder(kind int, name string) KeyBuilder {
+// ---- slices with spare capacity (the capacity of a slice is invisible in its value) ----
+
+// c21SpareBuf owns a buffer filled with the sentinel 0xEE; slice() is a slice of
+// it holding a copy of the wanted bytes, with spare capacity behind (and, for the
+// sub-slice variant, other bytes of the buffer in front of) it.
+type c21SpareBuf struct {
+	buf    []byte
+	off, n int
+	want   []byte
+}
+
+const c21Sentinel = 0xEE
+
+// spare modes: 1: cap=len+1, 2: cap=len+8, 3: cap=len+64, 4: sub-slice at offset 5 of a buffer of len+261 bytes
+var c21SpareNames = []string{"exact capacity", "cap=len+1", "cap=len+8", "cap=len+64", "sub-slice of a larger buffer"}
+
+func c21NewSpare(b []byte, mode int) *c21SpareBuf {
+	off, extra := 0, 0
+	switch mode {
+	case 1:
+		extra = 1
+	case 2:
+		extra = 8
+	case 3:
+		extra = 64
+	case 4:
+		off, extra = 5, 256
+	}
+	sb := &c21SpareBuf{buf: make([]byte, off+len(b)+extra), off: off, n: len(b), want: append([]byte{}, b...)}
+	for i := range sb.buf {
+		sb.buf[i] = c21Sentinel
+	}
+	copy(sb.buf[off:], b)
+	return sb
+}
+
+func (sb *c21SpareBuf) slice() []byte { return sb.buf[sb.off : sb.off+sb.n] }
+
+// intact: the caller's bytes are unchanged and nothing was written into the room around them
+func (sb *c21SpareBuf) intact() bool {
+	for i, x := range sb.buf {
+		if i >= sb.off && i < sb.off+sb.n {
+			if x != sb.want[i-sb.off] {
+				return false
+			}
+		} else if x != c21Sentinel {
+			return false
+		}
+	}
+	return true
+}
+
+// c21Respare returns a builder equal to kb whose internal slices have spare capacity.
+func c21Respare(kb KeyBuilder, mode int, reg *[]*c21SpareBuf) KeyBuilder {
+	if mode == 0 {
+		return kb
+	}
+	sp := func(b []byte) []byte {
+		sb := c21NewSpare(b, mode)
+		if reg != nil {
+			*reg = append(*reg, sb)
+		}
+		return sb.slice()
+	}
+	switch b := kb.(type) {
+	case hashKeyBuilder:
+		return hashKeyBuilder(sp(b))
+	case rlpKeyBuilder:
+		return rlpKeyBuilder(sp(b))
+	case rawKeyBuilder:
+		return rawKeyBuilder(sp(b))
+	case *prefixedHashKeyBuilder:
+		return &prefixedHashKeyBuilder{rawPrefix: sp(b.rawPrefix), hashPrefix: sp(b.hashPrefix)}
+	}
+	panic(fmt.Sprintf("unknown builder %T", kb))
+}
+
+// builder index b: b%3 = kind (hash, rlp, prefixedhash); b/3 = 0 exact-capacity
+// root as the public constructors return it, 1 = the same root with spare
+// capacity (sub-slice of a larger buffer), 2 = root made by the public entry
+// points from a caller slice with spare capacity (cap=len+64).
+const c21NB = 9
+
+func c21BName(b int) string {
+	return c21BuilderNames[b%3] + []string{"", "+spare-capacity-root", "+root-from-spare-caller-slice"}[b/3]
+}
+
+func c21Builder(b int, name string) KeyBuilder {
+	kind := b % 3
+	switch b / 3 {
+	case 1:
+		return c21Respare(c21Builder(kind, name), 4, nil)
+	case 2:
+		switch kind {
+		case 0:
+			return NewHashKey(c21NewSpare(AppendKeys(nil, byte(0x00), name), 3).slice())
+		case 1:
+			return rlpKeyBuilder(AppendKeys(c21NewSpare(AppendKeys(nil, []byte{0x10}, name), 3).slice()))
+		default:
+			return ToKey(PrefixedHashBuilder, c21NewSpare([]byte{0x70}, 3).slice(), name)
+		}
+	}
 	switch kind {
 	case 0:
 		return ToKey(HashBuilder, byte(0x00), name) // as service/scoredb does
@@ -663,7 +783,7 @@ func c21RunMix(builder int, ops []c21MixOp, seq []int) (sig, detail string, fina
 
 func TestVerifC21(t *testing.T) {
 	r := ev.Start(t, "C21", "exploration")
-	r.Rule("(1) keys: all tuples of length<=3 over a part alphabet (quick 46 / thorough 71 typed parts: empty, single bytes at the RLP boundaries, strings, byte strings of length 55/56/255/256 (thorough + 2/54/57/254/257, and 65535/65536 in tuples of length<=2), RLP framings of other parts, a 21-byte address, ints/bools/big ints through ToBytes) under AppendKeys and the Hash / Hash+raw-prefix / Hash+type-byte / PrefixedHash / RLP builders with 3 prefixes; SplitKeys on every truncation of the framed keys of all tuples of length<=2 and on every byte string of length<=2 (thorough: + 3-byte strings with a header first byte). (1b) sibling builders: for every builder kind (hash, hash+raw prefix, prefixed hash, rlp, raw), every parent of 0..2 parts over 6 (thorough 10) parts, built one-shot and by successive Append, every ordered pair (and triple over a subset) of children from 10 (thorough 14) child part lists incl. two multi-part Appends is derived from the ONE parent builder and kept alive together with the Build() results, then two grandchildren per child; every key must equal the key of the same path built one-shot on fresh slices, before and after the later derivations. (2) containers on a real trie store, every operation sequence up to depth d against a Go slice/map: ArrayDB {Put x,Put y,Pop,Set(0..2,·)} (8 ops, d=5 quick / 6 thorough, hash builder; d-1 for the rlp and prefixed-hash builders), DictDB depth 1 (6 ops, d=6/7) and depth 2 with three key pairs whose raw concatenations coincide (12 ops incl. Set through GetDB, d=4/5), containers sharing one key prefix (ArrayDB+DictDB(1)+DictDB(2)+2 VarDB, 11 ops, d=4/5) against a tuple-keyed flat model; (2b) 9 container handles derived from one parent builder (3-level DictDB with two kept sub-dictionaries and two kept sub-sub-dictionaries, two ArrayDB, two VarDB; 3 root names of different length x 2 opening orders x 3 builder kinds) held at once, every interleaving of 13 operations up to depth 3 (thorough 4), observed through the held handles, through fresh GetDB chains and through fresh one-shot builders; long arrays of 0..300 (thorough 70000) elements. distinct_nontrivial = distinct byte-form tuples, distinct SplitKeys inputs, distinct operation sequences")
+	r.Rule("(1) keys: all tuples of length<=3 over a part alphabet (quick 46 / thorough 71 typed parts: empty, single bytes at the RLP boundaries, strings, byte strings of length 55/56/255/256 (thorough + 2/54/57/254/257, and 65535/65536 in tuples of length<=2), RLP framings of other parts, a 21-byte address, ints/bools/big ints through ToBytes) under AppendKeys and the Hash / Hash+raw-prefix / Hash+type-byte / PrefixedHash / RLP builders with 3 prefixes; SplitKeys on every truncation of the framed keys of all tuples of length<=2 and on every byte string of length<=2 (thorough: + 3-byte strings with a header first byte). (1b) sibling builders: for every builder kind (hash, hash+raw prefix, prefixed hash, rlp, raw), every parent of 0..2 parts over 6 (thorough 10) parts, built one-shot and by successive Append, every ordered pair (and triple over a subset) of children from 10 (thorough 14) child part lists incl. two multi-part Appends is derived from the ONE parent builder and kept alive together with the Build() results, then two grandchildren per child; every key must equal the key of the same path built one-shot on fresh slices, before and after the later derivations. (2) containers on a real trie store, every operation sequence up to depth d against a Go slice/map: ArrayDB {Put x,Put y,Pop,Set(0..2,·)} (8 ops, d=5 quick / 6 thorough, hash builder; d-1 for the rlp and prefixed-hash builders), DictDB depth 1 (6 ops, d=6/7) and depth 2 with three key pairs whose raw concatenations coincide (12 ops incl. Set through GetDB, d=4/5), containers sharing one key prefix (ArrayDB+DictDB(1)+DictDB(2)+2 VarDB, 11 ops, d=4/5) against a tuple-keyed flat model; (2b) 9 container handles derived from one parent builder (3-level DictDB with two kept sub-dictionaries and two kept sub-sub-dictionaries, two ArrayDB, two VarDB; 3 root names of different length x 2 opening orders x 3 builder kinds) held at once, every interleaving of 13 operations up to depth 3 (thorough 4), observed through the held handles, through fresh GetDB chains and through fresh one-shot builders; long arrays of 0..300 (thorough 70000) elements. (3) spare-capacity prefixes: every slice handed to a key builder also with cap=len+1/+8/+64 and as a sub-slice of a larger sentinel-filled buffer: sibling family with the parent builder's slices re-seated on such slices and with the parent made by NewHashKey/ToKey/AppendKeys/AppendRawKeys from such a caller slice (8 extra parent styles, quick parents of 0..1 parts), AppendKeys/AppendRawKeys siblings on one caller prefix, every tuple built from one such prefix followed by a sibling key, caller buffer must stay untouched; container families under 9 root builders (3 kinds x exact / spare-capacity root / root from a spare-capacity caller slice). distinct_nontrivial = distinct byte-form tuples, distinct SplitKeys inputs, distinct operation sequences")
 	r.Assume("typed parts with the same byte form (true / int 1 / byte 01) share a key by design and are compared at the byte-form level",
 		"RawBuilder (plain concatenation) is outside the property; raw prefixes of different lengths are not compared with each other",
 		"hash builders: pre-images are compared for injectivity; equality of SHA3-256 outputs of different pre-images is additionally checked but cannot be excluded by enumeration",
@@ -737,7 +857,7 @@ func TestVerifC21(t *testing.T) {
 			b, ni, order := 0, 0, 0
 			fmt.Sscanf(c.Note, "builder=%d name=%d order=%d", &b, &ni, &order)
 			if sig, detail, _ := c21RunHandles(b, ni, order, c21HOps(), c.Ops); sig != "" {
-				r.Violation(sig+":"+c21BuilderNames[b], detail, c)
+				r.Violation(sig+":"+c21BName(b), detail, c)
 			}
 			r.Eval(1)
 		case "mix":
@@ -913,21 +1033,31 @@ func TestVerifC21(t *testing.T) {
 				parents = append(parents, []c21Part{a, b})
 			}
 		}
-		nSib := 0
+		nSib, nSibSpare := 0, 0
 		tripleN := r.Pick(5, len(kidLists))
+		spareParents := 7 // parents of 0..1 parts for the spare-capacity styles in the quick tier
+		if r.Thorough() {
+			spareParents = len(parents)
+		}
 		for kind := range c21SibKinds {
-			for style := 0; style < 2 && !expired(); style++ {
-				for _, parent := range parents {
+			for style := 0; style < c21NStyles && !expired(); style++ {
+				for pi, parent := range parents {
 					kind, style, parent := kind, style, parent
 					if style == 1 && len(parent) == 0 {
+						continue
+					}
+					if style >= 2 && pi >= 0 && spareParents < len(parents) && len(parent) > 1 {
 						continue
 					}
 					for i := range kidLists {
 						for j := range kidLists {
 							kids := [][]c21Part{kidLists[i], kidLists[j]}
 							nSib++
+							if style >= 2 {
+								nSibSpare++
+							}
 							add(func() { e.siblings(kind, style, parent, kids, grand) })
-							if i < tripleN && j < tripleN {
+							if triples := tripleN; i < triples && j < triples && (style < 2 || (i < 3 && j < 3)) {
 								for k := 0; k < tripleN; k++ {
 									kids3 := [][]c21Part{kidLists[i], kidLists[j], kidLists[k]}
 									nSib++
@@ -941,6 +1071,8 @@ func TestVerifC21(t *testing.T) {
 		}
 		flush()
 		r.Set("sibling_builder_cases", nSib)
+		r.Set("sibling_builder_cases_with_spare_capacity_prefix", nSibSpare)
+		r.Sanity(nSibSpare > 1000, "only %d spare-capacity sibling cases", nSibSpare)
 	}
 
 	// ---- (2) containers ----
@@ -949,7 +1081,7 @@ func TestVerifC21(t *testing.T) {
 	var omu sync.Mutex
 	note := func(k string) { omu.Lock(); outcomes[k] = true; omu.Unlock() }
 	seqCopy := func(s []int) []int { return append([]int{}, s...) }
-	for b := 0; b < 3 && !expired(); b++ {
+	for b := 0; b < c21NB && !expired(); b++ {
 		b := b
 		d := r.Pick(5, 6)
 		if b > 0 {
@@ -963,7 +1095,7 @@ func TestVerifC21(t *testing.T) {
 				r.Nontrivial(fmt.Sprintf("arr|%d|%v", b, seq))
 				sig, detail, final := c21RunArray(b, seq)
 				if sig != "" {
-					r.Violation(sig+":"+c21BuilderNames[b], fmt.Sprintf("ops=%v %s", c21ArrNames(seq), detail), c21TupleCase{Phase: "array", Ops: seq, Note: fmt.Sprintf("builder=%d", b)})
+					r.Violation(sig+":"+c21BName(b), fmt.Sprintf("ops=%v %s", c21ArrNames(seq), detail), c21TupleCase{Phase: "array", Ops: seq, Note: fmt.Sprintf("builder=%d", b)})
 				}
 				note("arr" + strings.Join(final, ","))
 			})
@@ -971,7 +1103,7 @@ func TestVerifC21(t *testing.T) {
 		})
 	}
 	flush()
-	for b := 0; b < 3 && !expired(); b++ {
+	for b := 0; b < c21NB && !expired(); b++ {
 		b := b
 		for depth := 1; depth <= 2; depth++ {
 			depth := depth
@@ -995,7 +1127,7 @@ func TestVerifC21(t *testing.T) {
 					r.Nontrivial(fmt.Sprintf("dict%d|%d|%v", depth, b, seq))
 					sig, detail, final := c21RunDict(b, depth, ops, seq)
 					if sig != "" {
-						r.Violation(sig+":"+c21BuilderNames[b], fmt.Sprintf("depth=%d ops=%v %s", depth, seq, detail), c21TupleCase{Phase: fmt.Sprintf("dict%d", depth), Ops: seq, Note: fmt.Sprintf("builder=%d", b)})
+						r.Violation(sig+":"+c21BName(b), fmt.Sprintf("depth=%d ops=%v %s", depth, seq, detail), c21TupleCase{Phase: fmt.Sprintf("dict%d", depth), Ops: seq, Note: fmt.Sprintf("builder=%d", b)})
 					}
 					var ks []string
 					for k, v := range final {
@@ -1009,10 +1141,10 @@ func TestVerifC21(t *testing.T) {
 		}
 	}
 	flush()
-	for b := 0; b < 3 && !expired(); b++ {
+	for b := 0; b < c21NB && !expired(); b++ {
 		b := b
 		d := r.Pick(4, 5)
-		if b > 0 {
+		if b%3 > 0 {
 			d--
 		}
 		opseq.Sequences(len(mixOps), 0, d, func(s []int) bool {
@@ -1027,7 +1159,7 @@ func TestVerifC21(t *testing.T) {
 					for _, i := range seq {
 						names = append(names, mixOps[i].name)
 					}
-					r.Violation(sig+":"+c21BuilderNames[b], fmt.Sprintf("ops=%v %s", names, detail), c21TupleCase{Phase: "mix", Ops: seq, Note: fmt.Sprintf("builder=%d", b)})
+					r.Violation(sig+":"+c21BName(b), fmt.Sprintf("ops=%v %s", names, detail), c21TupleCase{Phase: "mix", Ops: seq, Note: fmt.Sprintf("builder=%d", b)})
 				}
 				var ks []string
 				for k, v := range final {
@@ -1048,7 +1180,7 @@ func TestVerifC21(t *testing.T) {
 	{
 		hops := c21HOps()
 		d := r.Pick(3, 4)
-		for kind := 0; kind < 3 && !expired(); kind++ {
+		for kind := 0; kind < c21NB && !expired(); kind++ {
 			for ni := range c21RootNames {
 				for order := 0; order < 2; order++ {
 					kind, ni, order := kind, ni, order
@@ -1064,7 +1196,7 @@ func TestVerifC21(t *testing.T) {
 								for _, i := range seq {
 									names = append(names, hops[i].name)
 								}
-								r.Violation(sig+":"+c21BuilderNames[kind], fmt.Sprintf("root=%q handles opened in order %d, ops=%v %s", c21RootNames[ni], order, names, detail),
+								r.Violation(sig+":"+c21BName(kind), fmt.Sprintf("root=%q handles opened in order %d, ops=%v %s", c21RootNames[ni], order, names, detail),
 									c21TupleCase{Phase: "handles", Ops: seq, Note: fmt.Sprintf("builder=%d name=%d order=%d", kind, ni, order)})
 							}
 							note("handles" + final)
@@ -1106,7 +1238,7 @@ func TestVerifC21(t *testing.T) {
 			}
 		}
 		if bad != "" {
-			r.Violation("ArrayDB-long:"+c21BuilderNames[b], bad, c21TupleCase{Phase: "long", Note: fmt.Sprintf("builder=%d n=%d", b, n)})
+			r.Violation("ArrayDB-long:"+c21BName(b), bad, c21TupleCase{Phase: "long", Note: fmt.Sprintf("builder=%d n=%d", b, n)})
 		}
 	}
 	r.Set("array_sequences", nArr)
@@ -1198,8 +1330,9 @@ func (e *c21Env) siblings(kind, style int, parent []c21Part, kids [][]c21Part, g
 	r.Nontrivial(fmt.Sprintf("sib|%d|%d|%v|%v", kind, style, c.Parent, c.Kids))
 	kn := c21SibKinds[kind]
 	fail := func(sig, format string, a ...interface{}) {
-		r.Violation(sig+":"+kn, fmt.Sprintf("builder=%s parent=%v (built %s) children=%v: ", kn, c.Parent, []string{"one-shot", "by successive Append"}[style], c21Names(kids...))+fmt.Sprintf(format, a...), c)
+		r.Violation(sig+":"+kn, fmt.Sprintf("builder=%s parent=%v (built %s) children=%v: ", kn, c.Parent, c21StyleName(style), c21Names(kids...))+fmt.Sprintf(format, a...), c)
 	}
+	var reg []*c21SpareBuf
 	if p := ev.Catch(func() {
 		dup := func(b []byte) []byte { return append([]byte{}, b...) }
 		// expected keys, each from a fresh one-shot builder
@@ -1214,12 +1347,36 @@ func (e *c21Env) siblings(kind, style int, parent []c21Part, kids [][]c21Part, g
 		}
 		// the parent
 		var P KeyBuilder
-		if style == 0 {
+		switch {
+		case style == 0:
 			P = c21OneShot(kind, c21Vals(parent))
-		} else {
+		case style == 1:
 			P = c21OneShot(kind, nil)
 			for _, p := range parent {
 				P = P.Append(p.v)
+			}
+		case style < 6:
+			// the parent builder's own slices have spare capacity (mode style-1)
+			P = c21Respare(c21OneShot(kind, c21Vals(parent)), style-1, &reg)
+		default:
+			// the parent is made by the public entry points from a CALLER slice with spare capacity
+			mode := style - 5
+			sp := func(b []byte) []byte {
+				sb := c21NewSpare(b, mode)
+				reg = append(reg, sb)
+				return sb.slice()
+			}
+			switch kind {
+			case 0:
+				P = NewHashKey(sp(AppendKeys(nil, c21Vals(parent)...)))
+			case 1:
+				P = NewHashKey(sp([]byte{0x00}), c21Vals(parent)...)
+			case 2:
+				P = ToKey(PrefixedHashBuilder, append([]interface{}{sp([]byte{0x70})}, c21Vals(parent)...)...)
+			case 3:
+				P = rlpKeyBuilder(AppendKeys(sp(AppendKeys(nil, c21Vals(parent)...))))
+			default:
+				P = rawKeyBuilder(AppendRawKeys(sp(AppendRawKeys(nil, c21Vals(parent)...))))
 			}
 		}
 		// children, all kept; each key is also built right away and the result held
@@ -1261,6 +1418,50 @@ func (e *c21Env) siblings(kind, style int, parent []c21Part, kids [][]c21Part, g
 			}
 		}
 		check("after deriving grandchildren")
+		if style >= 2 && kind >= 3 {
+			// the plain functions on ONE caller prefix with spare capacity: all results kept alive
+			mode := style - 1
+			if style >= 6 {
+				mode = style - 5
+			}
+			var wantP, wantPR []byte
+			for _, f := range c21Forms(parent) {
+				wantP = append(wantP, c21Frame(f)...)
+				wantPR = append(wantPR, f...)
+			}
+			sbF, sbR := c21NewSpare(wantP, mode), c21NewSpare(wantPR, mode)
+			reg = append(reg, sbF, sbR)
+			var gotF, gotR, wantF, wantR [][]byte
+			for _, k := range kids {
+				wf, wr := append([]byte{}, wantP...), append([]byte{}, wantPR...)
+				for _, f := range c21Forms(k) {
+					wf = append(wf, c21Frame(f)...)
+					wr = append(wr, f...)
+				}
+				wantF, wantR = append(wantF, wf), append(wantR, wr)
+				if kind == 3 {
+					gotF = append(gotF, AppendKeys(sbF.slice(), c21Vals(k)...))
+				} else {
+					gotR = append(gotR, AppendRawKeys(sbR.slice(), c21Vals(k)...))
+				}
+			}
+			for i := range gotF {
+				if !bytes.Equal(gotF[i], wantF[i]) {
+					fail("AppendKeys-results-on-one-prefix-interfere", "AppendKeys(prefix with %s, child %d) is now %s, want %s", c21SpareNames[mode], i, c21Hex(gotF[i]), c21Hex(wantF[i]))
+				}
+			}
+			for i := range gotR {
+				if !bytes.Equal(gotR[i], wantR[i]) {
+					fail("AppendRawKeys-results-on-one-prefix-interfere", "AppendRawKeys(prefix with %s, child %d) is now %s, want %s", c21SpareNames[mode], i, c21Hex(gotR[i]), c21Hex(wantR[i]))
+				}
+			}
+		}
+		for _, sb := range reg {
+			if !sb.intact() {
+				fail("caller-prefix-buffer-written", "a key builder wrote into the caller's buffer (%s): buffer now %s, caller's bytes %s", c21StyleName(style), c21Hex(sb.buf), c21Hex(sb.want))
+				break
+			}
+		}
 		if kind == 3 {
 			for i, k := range kids {
 				want := c21TupleKey(c21Forms(parent, k))
@@ -1271,6 +1472,24 @@ func (e *c21Env) siblings(kind, style int, parent []c21Part, kids [][]c21Part, g
 		}
 	}); p != "" {
 		fail("key-builder-panics", "%s", p)
+	}
+}
+
+// styles of building the parent: 0 one-shot, 1 successive Append, 2..5 the
+// parent builder's slices get spare capacity (modes 1..4), 6..9 the parent is
+// made by the public entry points from a caller slice with spare capacity.
+const c21NStyles = 10
+
+func c21StyleName(style int) string {
+	switch {
+	case style == 0:
+		return "one-shot"
+	case style == 1:
+		return "by successive Append"
+	case style < 6:
+		return "one-shot, builder slices with " + c21SpareNames[style-1]
+	default:
+		return "by NewHashKey/ToKey/AppendKeys from a caller slice with " + c21SpareNames[style-5]
 	}
 }
 
@@ -1297,6 +1516,9 @@ type c21Handles struct {
 }
 
 func c21Root(kind int, name string) KeyBuilder {
+	if kind >= 3 {
+		return c21Builder(kind, name)
+	}
 	switch kind {
 	case 0:
 		return ToKey(HashBuilder, byte(0x00), name)
@@ -1331,7 +1553,7 @@ func c21Open(st *c21Store, kind int, name string, order int) *c21Handles {
 
 // fresh one-shot builder of the same path (never shares a slice with anything)
 func c21Path(kind int, name string, parts ...interface{}) KeyBuilder {
-	switch kind {
+	switch kind % 3 {
 	case 0:
 		return ToKey(HashBuilder, append([]interface{}{byte(0x00), name}, parts...)...)
 	case 1:
